@@ -2,7 +2,10 @@ module verif
 
 go 1.23.0
 
-require github.com/smallnest/rpcx v0.0.0
+require (
+	github.com/dgryski/go-jump v0.0.0-20211018200510-ba001c3ffce0
+	github.com/smallnest/rpcx v0.0.0
+)
 
 require (
 	github.com/akutz/memconn v0.1.0 // indirect
@@ -10,7 +13,6 @@ require (
 	github.com/apache/thrift v0.21.0 // indirect
 	github.com/cenk/backoff v2.2.1+incompatible // indirect
 	github.com/cenkalti/backoff v2.2.1+incompatible // indirect
-	github.com/dgryski/go-jump v0.0.0-20211018200510-ba001c3ffce0 // indirect
 	github.com/edwingeng/doublejump v1.0.1 // indirect
 	github.com/facebookgo/clock v0.0.0-20150410010913-600d898af40a // indirect
 	github.com/fatih/color v1.18.0 // indirect
